@@ -27,13 +27,20 @@ def fibers_at(root, depth):
 def _bx(rng, elem=False):
     """how a scalar argument is handed over: 0 plain, 1 boxed, 2 boxed twice (Payload(Payload(v)), the copy
     idiom), 3 an element (CoordPayload) as in-place addend; the stored leaf must be singly boxed regardless"""
-    return rng.choice([0, 0, 0, 1, 2, 3] if elem else [0, 0, 0, 1, 2])
+    return rng.choice([0, 0, 0, 1, 2, 3, 4] if elem else [0, 0, 0, 1, 2, 4])
+
+
+class IntSub(int):
+    """a value whose type is a proper subclass of a boxable type (as an IntEnum member or a numpy scalar is):
+    it must be boxed like any int"""
 
 
 def _box(v, bx, add=False):
     ft = H.ft()
     if not isinstance(v, int) or not bx:
         return v
+    if bx == 4:
+        return IntSub(v)
     if bx == 1:
         return ft.Payload(v)
     if bx == 3:
